@@ -90,6 +90,8 @@ structure EnfSt where
   histOk : Bool := true
   /-- the filtered file adapter of the case, if it uses one -/
   fa : Option FASt := none
+  /-- the case left what the model covers (an order that depends on Go's map iteration): every later line answers `none` -/
+  dead : Bool := false
 
 def showMRes : Enf.MRes → String
   | .ok b => showBool b
@@ -228,6 +230,7 @@ def enfOp (st : EnfSt) (ts : List String) : Option (EnfSt × String × String ×
         else some ({ st with enf := none }, "err", "-", true)
       else some ({ st with enf := some { base := { e0 with watcher := st.watcher } } }, "ok", "-", true)
   | op :: rest =>
+    if st.dead then some (st, "none", "-", false) else
     match st.enf with
     | none => none
     | some ep =>
@@ -305,7 +308,7 @@ def enfOp (st : EnfSt) (ts : List String) : Option (EnfSt × String × String ×
           | some fa =>
               -- LoadPolicy through the filtered file adapter: a full load via the scratch model; the flag is cleared first
               (match ep.loadText true fa.text with
-               | none => some (st, "none", "-", false)
+               | none => some ({ st with dead := true }, "none", "-", false)
                | some (ep', ok) =>
                    some ({ st with enf := some ep', fa := some { fa with filtered := if ok then false else fa.filtered },
                                    histOk := if ok then stateOk ep'.base && ep'.base.autoBuild else st.histOk }, (if ok then "ok" else "err"), "-", true))
@@ -327,14 +330,14 @@ def enfOp (st : EnfSt) (ts : List String) : Option (EnfSt × String × String ×
       | "loadtext", [kind, text] => do
           let t ← decodeTok text
           match ep.loadText (kind == "file") t.toList with
-          | none => some (st, "none", "-", false)        -- order depends on map iteration (finding D22)
+          | none => some ({ st with dead := true }, "none", "-", false)        -- order depends on map iteration (finding D22)
           | some (ep', ok) =>
               some ({ st with enf := some ep', histOk := if ok then stateOk ep'.base && ep'.base.autoBuild else st.histOk }, (if ok then "ok" else "err"), "-", true)
       | "loadf", flt => do
           let f ← parseFilter flt
           let fa ← st.fa
           match ep.loadFilteredFA fa f true with
-          | none => some (st, "none", "-", false)
+          | none => some ({ st with dead := true }, "none", "-", false)
           | some (ep', fa', ok) =>
               some ({ st with enf := some ep', fa := some fa', histOk := if ok then stateOk ep'.base && ep'.base.autoBuild else false },
                 s!"{if ok then "ok" else "err"} F={if fa'.filtered then 1 else 0}", "-", true)
@@ -342,7 +345,7 @@ def enfOp (st : EnfSt) (ts : List String) : Option (EnfSt × String × String ×
           let f ← parseFilter flt
           let fa ← st.fa
           match ep.loadFilteredFA fa f false with
-          | none => some (st, "none", "-", false)
+          | none => some ({ st with dead := true }, "none", "-", false)
           | some (ep', fa', ok) =>
               some ({ st with enf := some ep', fa := some fa', histOk := if ok then stateOk ep'.base && ep'.base.autoBuild else false },
                 s!"{if ok then "ok" else "err"} F={if fa'.filtered then 1 else 0}", "-", true)
